@@ -68,6 +68,9 @@ Definition write_sentry (e : sid * list (bytes * bytes)) : bytes :=
 Definition stream_items (es : list (sid * list (bytes * bytes))) : Z :=
   fold_right (fun e acc => 2 + 2 * len (snd e) + acc) 1 es.
 
+(** a list that itself starts with the stream marker is written with the marker doubled (6aaeb35) *)
+Definition list_escaped (l : list bytes) : bool :=
+  match l with h :: _ => beq h marker | [] => false end.
 (** the type byte, the key and the payload of write_key_value (rdb.rs:556-660) *)
 Definition write_value (k : bytes) (v : value) : bytes :=
   match v with
@@ -75,7 +78,8 @@ Definition write_value (k : bytes) (v : value) : bytes :=
   | VZSet z => T_ZSET :: write_string k ++ write_length (len z) ++ flat_map write_zitem z
   | VStream s => T_LIST :: write_string k ++ write_length (stream_items (s_entries s))
                  ++ write_string marker ++ flat_map write_sentry (s_entries s)
-  | VList l => T_LIST :: write_string k ++ write_length (len l) ++ flat_map write_string l
+  | VList l => T_LIST :: write_string k ++ write_length (len l + (if list_escaped l then 1 else 0))
+               ++ (if list_escaped l then write_string marker else []) ++ flat_map write_string l
   | VSet s => T_SET :: write_string k ++ write_length (len s) ++ flat_map write_string s
   | VHash h => T_HASH :: write_string k ++ write_length (len h) ++ flat_map write_pair h
   end.
@@ -283,6 +287,11 @@ Definition api_set (now : Z) (ds : list db) (i : Z) (k v : bytes) (ttl : option 
   end.
 (** zadd refuses a NaN score before anything else (engine.rs, after the repair of the
     NaN-node defect) *)
+Definition api_set_value (now : Z) (ds : list db) (i : Z) (k : bytes) (v : value) (ttl : option Z) : option (list db) :=
+  match get_dbi ds i with
+  | Some d => Some (set_dbi ds i (set_value now d k v ttl))
+  | None => None
+  end.
 Definition api_zadd (ds : list db) (i : Z) (k m : bytes) (sc : Z) : option (list db) :=
   if f_nan sc then None else
   match get_dbi ds i with
@@ -410,16 +419,18 @@ Record lst := { l_rd : rd; l_dbs : list db }.
 Inductive step A := SOk (a : A) (s : rd) (ds : list db) | SErr (s : rd) (ds : list db) | SPanic (s : rd) (ds : list db).
 Arguments SOk {A}. Arguments SErr {A}. Arguments SPanic {A}.
 
-(** stream reconstruction loop (rdb.rs:881-919); the field count's arithmetic is checked (bcfe7be):
-    an overflow is "not enough data" *)
+(** stream reconstruction loop (rdb.rs); [pre]: the ID string of the first entry, already read
+    while telling a stream from a list that starts with the marker.  An entry takes two strings
+    (ID, field count) and its pairs (31c6d8d: [entry_idx + 2 > remaining] breaks); the field
+    count's arithmetic is checked (bcfe7be): an overflow is "not enough data" *)
 Fixpoint load_stream (fuel : nat) (ds : list db) (i : Z) (k : bytes)
-         (idx remaining : Z) (s : rd) : step unit :=
+         (idx remaining : Z) (pre : option bytes) (s : rd) : step unit :=
   match fuel with
   | O => SErr s ds
   | S f =>
     if remaining <=? idx then SOk tt s ds else
-    if remaining <=? idx + 2 then SOk tt s ds else             (* break: not enough for an entry *)
-    match read_string s with
+    if remaining <? idx + 2 then SOk tt s ds else             (* break: not enough for an entry *)
+    match (match pre with Some id => (Some id, s) | None => read_string s end) with
     | (None, s1) => SErr s1 ds
     | (Some id_str, s1) =>
       match read_string s1 with
@@ -435,7 +446,7 @@ Fixpoint load_stream (fuel : nat) (ds : list db) (i : Z) (k : bytes)
                        | Some id => api_xadd ds i k id (h_ins_all [] fv)
                        | None => ds
                        end in
-            load_stream f ds' i k (idx2 + 2 * fc) remaining s3
+            load_stream f ds' i k (idx2 + 2 * fc) remaining None s3
         end
       end
     end
@@ -514,24 +525,44 @@ Definition load_kv (now : Z) (ds : list db) (i : Z) (vt : Z) (ttl : option Z) (s
           match read_string s2 with
           | (None, s3) => SErr s3 ds
           | (Some first, s3) =>
-            if beq first marker then
-              match load_stream fuel ds i k 0 (n - 1) s3 with
-              | SOk _ s4 ds1 => lift_api tt s4 ds1 (api_expire_opt now ds1 i k ttl)
-              | r => r
-              end
-            else
-              match api_rpush ds i k [first] with
-              | None => SErr s3 ds
-              | Some ds1 =>
-                match read_strings_partial fuel (n - 1) [] s3 with
-                | (els, ok, s4) =>
-                  match (match els with [] => Some ds1 | _ => api_rpush ds1 i k els end) with
-                  | None => SErr s4 ds1
-                  | Some ds2 =>
-                      if ok then lift_api tt s4 ds2 (api_expire_opt now ds2 i k ttl) else SErr s4 ds2
+            (* marker twice = a list that starts with the marker: the first one is dropped;
+               marker then something else = a stream, that string is its first ID *)
+            let look :=
+              if beq first marker && (2 <=? n) then
+                match read_string s3 with
+                | (None, s4) => (None, s4)
+                | (Some second, s4) =>
+                    if beq second marker then (Some (false, n - 1, None), s4)
+                    else (Some (true, n, Some second), s4)
+                end
+              else (Some (beq first marker, n, None), s3) in
+            match look with
+            | (None, s4) => SErr s4 ds
+            | (Some (is_stream, n', pre), s4) =>
+              if is_stream then
+                (* the key exists even when no entry follows (1a77fe9) *)
+                match api_set_value now ds i k (VStream (mkstream [] (0, 0) 0)) None with
+                | None => SErr s4 ds
+                | Some ds0 =>
+                  match load_stream fuel ds0 i k 0 (n' - 1) pre s4 with
+                  | SOk _ s5 ds1 => lift_api tt s5 ds1 (api_expire_opt now ds1 i k ttl)
+                  | r => r
                   end
                 end
-              end
+              else
+                match api_rpush ds i k [first] with
+                | None => SErr s4 ds
+                | Some ds1 =>
+                  match read_strings_partial fuel (n' - 1) [] s4 with
+                  | (els, ok, s5) =>
+                    match (match els with [] => Some ds1 | _ => api_rpush ds1 i k els end) with
+                    | None => SErr s5 ds1
+                    | Some ds2 =>
+                        if ok then lift_api tt s5 ds2 (api_expire_opt now ds2 i k ttl) else SErr s5 ds2
+                    end
+                  end
+                end
+            end
           end
         else lift_api tt s2 ds (api_expire_opt now ds i k ttl)
       end
@@ -670,7 +701,8 @@ Definition calls_value (k : bytes) (v : value) : Z :=
   | VStream s => calls_length (stream_items (s_entries s)) + calls_string marker
                  + zsum (fun e => calls_string (sid_text (fst e)) + calls_string (print_nat (len (snd e)))
                                   + zsum calls_pair (snd e)) (s_entries s)
-  | VList l => calls_length (len l) + zsum calls_string l
+  | VList l => calls_length (len l + (if list_escaped l then 1 else 0))
+               + (if list_escaped l then calls_string marker else 0) + zsum calls_string l
   | VSet s => calls_length (len s) + zsum calls_string s
   | VHash h => calls_length (len h) + zsum calls_pair h
   end.
@@ -720,17 +752,16 @@ Fixpoint sids_ok (last : sid) (es : list (sid * list (bytes * bytes))) : bool :=
   | e :: r => negb (sid_leb (fst e) last) && u64b (fst (fst e)) && u64b (snd (fst e)) && sids_ok (fst e) r
   end.
 Definition sentry_ok (e : sid * list (bytes * bytes)) : bool :=
-  negb (len (snd e) =? 0) && forallb pair_ok (snd e) && nodupb (map fst (snd e)).
+  forallb pair_ok (snd e) && nodupb (map fst (snd e)).
 Definition value_ok (v : value) : bool :=
   match v with
   | VStr b => str_ok b
-  | VList l => lt32 (len l) && forallb str_ok l
-               && match l with [] => false | h :: _ => negb (beq h marker) end
+  | VList l => lt32 (len l + 1) && forallb str_ok l && negb (len l =? 0)
   | VSet s => lt32 (len s) && forallb str_ok s && nodupb s
   | VHash h => lt32 (len h) && forallb pair_ok h && nodupb (map fst h)
   | VZSet z => lt32 (len z) && forallb (fun p => str_ok (fst p) && u64b (snd p) && negb (f_nan (snd p))) z
                && negb (len z =? 0) && zs_canonical z
-  | VStream s => lt32 (stream_items (s_entries s)) && negb (len (s_entries s) =? 0)
+  | VStream s => lt32 (stream_items (s_entries s))
                  && sids_ok (0, 0) (s_entries s) && forallb sentry_ok (s_entries s)
   end.
 (** A key already expired at the save is simply not written; a live key must be well formed
